@@ -95,8 +95,6 @@ pub proof fn lemma_contains_push_rev(s: Seq<usize>, x: usize, y: usize)
 }
 
 //@ extract fn src/algorithms/centrality/betweenness.rs bfs props=C03,C05,C20
-//@ head
-#[verifier::exec_allows_no_decreases_clause]
 //@ rewrite
 -> SingleSourceResults
 //@ with
@@ -164,8 +162,18 @@ for adj in row_it: graph.get_successor_nodes_by_index(&v)
             (S@ + fringe@).no_duplicates(),
             forall|x: int| 0 <= x < graph.n() ==> ((S@.contains(x as usize) || fringe@.contains(x as usize)) <==> !feq(#[trigger] D@[x], f64_max())),
             preds_one_level_up(D@, P@),
+            S@.len() + fringe@.len() <= graph.n(),
         ensures
             fringe@.len() == 0,
+        // [C20.betweenness_bfs.terminates] every step moves one node from the queue into the visiting order; a node is queued once and there are n
+        decreases graph.n() - S@.len(),
+//@ bodyend 1
+        proof {
+            assert forall|k: int| 0 <= k < (S@ + fringe@).len() implies #[trigger] (S@ + fringe@)[k] < graph.n() by {
+                if k < S@.len() { assert((S@ + fringe@)[k] == S@[k]); } else { assert((S@ + fringe@)[k] == fringe@[k - S@.len()]); }
+            }
+            lemma_distinct_bounded_len(S@ + fringe@, graph.n());
+        }
 //@ before S.push(v);
         let ghost q0 = q;
         let ghost S0 = S@;
@@ -326,8 +334,6 @@ distance: core::ops::Neg::neg(vw_dist),
 //@ end
 
 //@ extract fn src/algorithms/centrality/betweenness.rs dijkstra props=C03,C05,C20
-//@ head
-#[verifier::exec_allows_no_decreases_clause]
 //@ rewrite
 -> SingleSourceResults
 //@ with
@@ -372,7 +378,8 @@ for adj in row_it: graph.get_successor_nodes_by_index(&v)
         // [C05.dijkstra.predecessors_are_stored_edges, C03.consumers.betweenness_dijkstra_reads_successor_rows]
         preds_are_edges(*graph, r.P@),
         // [C05.dijkstra.order_covers_reachable_set]
-        order_covers_reachable(*graph, source, r.S@),
+        // closed under the traversal rows, except for entries whose candidate length is exactly f64::MAX (never queued)
+        exists|hist: Seq<(usize, f64)>| #[trigger] order_covers_reachable_w(*graph, source, r.S@, hist),
         // [C05.dijkstra.predecessors_are_tight]
         // every predecessor p listed for w was settled with a length d such that d + weight(p -> w) is w's final tentative distance
         exists|hist: Seq<(usize, f64)>, seenf: Seq<f64>| #[trigger] preds_tight(*graph, hist, seenf, r.P@),
@@ -385,6 +392,8 @@ for adj in row_it: graph.get_successor_nodes_by_index(&v)
         assert(heap_view(&fringe) =~= vstd::multiset::Multiset::<FringeNode>::empty().insert(it0));
         assert(heap_view(&fringe).count(it0) > 0);
         assert(in_heap(heap_view(&fringe), source));
+        axiom_f64_zero_not_max();
+        assert(fneg(it0.distance) == 0.0f64);
     }
 //@ loop 1
         invariant
@@ -411,10 +420,18 @@ for adj in row_it: graph.get_successor_nodes_by_index(&v)
             preds_tight(*graph, hist, seen@, P@),
             // [C05.dijkstra.nothing_reachable_is_dropped]
             forall|w: int| 0 <= w < graph.n() && !feq(#[trigger] seen@[w], f64_max()) ==> popped.contains(w as usize) || in_heap(heap_view(&fringe), w as usize),
-            succ_closed_upto(*graph, popped, heap_view(&fringe), -1, 0),
+            succ_closed_upto(*graph, true, hist, popped, heap_view(&fringe), -1, 0),
             popped.contains(source) || in_heap(heap_view(&fringe), source),
+            hist.len() == S@.len(), forall|j: int| 0 <= j < hist.len() ==> (#[trigger] hist[j]).0 == S@[j],
+            // [C20.betweenness_dijkstra.settled_once] a settled node carries a distance other than f64::MAX (no heap item carries f64::MAX),
+            // so the `continue` guard skips it for good
+            forall|w: usize| #[trigger] popped.contains(w) ==> w < graph.n() && !feq(D@[w as int], f64_max()),
+            forall|it: FringeNode| #[trigger] heap_view(&fringe).count(it) > 0 ==> !feq(fneg(it.distance), f64_max()),
+            popped.len() <= graph.n(),
         ensures
             heap_view(&fringe).len() == 0,
+        // [C20.betweenness_dijkstra.terminates] a step settles a node (each at most once, there are n) or only takes an item off the heap
+        decreases graph.n() - popped.len(), heap_view(&fringe).len(),
 //@ before let dist = -fringe_item.distance;
         let ghost heap0 = hv;
         proof {
@@ -435,6 +452,7 @@ for adj in row_it: graph.get_successor_nodes_by_index(&v)
         assert(feq(D@[v as int], f64_max()));
 //@ after S.push(v);
         proof {
+            assert(!popped.contains(v));
             popped = popped.insert(v);
             assert forall|x: usize| #[trigger] S0.contains(x) implies S@.contains(x) by {
                 lemma_contains_push(S0, v, x);
@@ -451,6 +469,13 @@ for adj in row_it: graph.get_successor_nodes_by_index(&v)
             assert forall|w: int, k: int| 0 <= w < P@.len() && 0 <= k < P@[w]@.len() implies tight_pred(*graph, hist, seen@, w, #[trigger] P@[w]@[k]) by {
                 lemma_tight_hist_mono(*graph, h0, (v, dist), seen@, w, P@[w]@[k]);
             }
+            assert forall|x: usize, k: int| #[trigger] max_cand(*graph, true, h0, x, k) implies max_cand(*graph, true, hist, x, k) by {
+                lemma_max_cand_mono(*graph, true, h0, (v, dist), x, k);
+            }
+            assert(succ_closed_upto(*graph, true, hist, popped, heap_view(&fringe), v as int, 0));
+            assert forall|w: usize| #[trigger] popped.contains(w) implies w < graph.n() by {}
+            lemma_bounded_usize_set_len(popped, graph.n());
+            assert(hist[h0.len() as int] == (v, dist));
         }
         let ghost vpos: int = hist.len() - 1;
 //@ loop 2
@@ -477,7 +502,11 @@ for adj in row_it: graph.get_successor_nodes_by_index(&v)
                 forall|x: usize| #![trigger popped.contains(x)] #![trigger S@.contains(x)] popped.contains(x) <==> S@.contains(x),
                 preds_are_edges(*graph, P@),
                 forall|w: int| 0 <= w < graph.n() && !feq(#[trigger] seen@[w], f64_max()) ==> popped.contains(w as usize) || in_heap(heap_view(&fringe), w as usize),
-                succ_closed_upto(*graph, popped, heap_view(&fringe), v as int, row_it.index@ as int),
+                succ_closed_upto(*graph, true, hist, popped, heap_view(&fringe), v as int, row_it.index@ as int),
+                hist.len() == S@.len(), forall|j: int| 0 <= j < hist.len() ==> (#[trigger] hist[j]).0 == S@[j],
+                forall|w: usize| #[trigger] popped.contains(w) ==> w < graph.n() && !feq(D@[w as int], f64_max()),
+                forall|it: FringeNode| #[trigger] heap_view(&fringe).count(it) > 0 ==> !feq(fneg(it.distance), f64_max()),
+                popped.len() <= graph.n(),
 //@ after let w = adj.node_index;
             let ghost fringe0 = heap_view(&fringe);
             let ghost P0 = P@;
@@ -494,7 +523,20 @@ for adj in row_it: graph.get_successor_nodes_by_index(&v)
                         lemma_in_heap_insert(fringe0, itx, x);
                     }
                     lemma_in_heap_insert(fringe0, itx, w);
+                    assert(fneg(itx.distance) == vw_dist);
+                    assert forall|it: FringeNode| #[trigger] heap_view(&fringe).count(it) > 0 implies !feq(fneg(it.distance), f64_max()) by {
+                        if it != itx { assert(fringe0.count(it) > 0); }
+                    }
                 }
+//@ bodyend 2
+            proof {
+                // the entry just relaxed leads to a settled node, a queued node, or its candidate is exactly f64::MAX
+                assert(entry_mark(v, row_it.index@ as int));
+                if feq(vw_dist, f64_max()) {
+                    assert(hist.contains((v, dist)));
+                    assert(max_cand(*graph, true, hist, v, row_it.index@ as int));
+                }
+            }
 //@ after P[w] = vec![v];
                 proof {
                     assert forall|a: int, k: int| 0 <= a < P@.len() && 0 <= k < P@[a]@.len() implies has_row_entry(*graph, #[trigger] P@[a]@[k], a as usize) by {
@@ -531,6 +573,16 @@ for adj in row_it: graph.get_successor_nodes_by_index(&v)
                         }
                     }
                 }
+//@ before =    SingleSourceResults {
+    proof {
+        assert forall|x: usize| !in_heap(heap_view(&fringe), x) by {
+            if in_heap(heap_view(&fringe), x) {
+                let it = choose|it: FringeNode| #[trigger] heap_view(&fringe).count(it) > 0 && it.v == x;
+                assert(heap_view(&fringe).count(it) <= heap_view(&fringe).len());
+            }
+        }
+        assert(order_covers_reachable_w(*graph, source, S@, hist));
+    }
 //@ end
 
 // ---- reachability + walk soundness of the weighted kernels (shared with u_sp through chain.rs) ----
@@ -547,22 +599,71 @@ pub open spec fn in_heap(h: vstd::multiset::Multiset<FringeNode>, w: usize) -> b
 // trigger marker for the closure quantifiers: they are instantiated only at traversal entries named explicitly (a trigger on the
 // row entry itself would chain through in_heap -> citem_ok -> extends -> another row entry and never stop)
 pub open spec fn entry_mark(v: usize, k: int) -> bool { true }
-pub open spec fn succ_closed_upto<T: Eq + PartialOrd + Send + Sync, A: Clone>(g: Graph<T, A>, done: Set<usize>, h: vstd::multiset::Multiset<FringeNode>, cur: int, upto: int) -> bool {
-    forall|v: usize, k: int| #[trigger] entry_mark(v, k) && done.contains(v) && v < g.n() && 0 <= k < g.successors_vec@[v as int]@.len() && (v != cur || k < upto)
-        ==> done.contains(g.successors_vec@[v as int]@[k].node_index) || in_heap(h, g.successors_vec@[v as int]@[k].node_index)
+// the candidate through traversal entry k of v, extending a length v was assigned, is exactly f64::MAX: such a candidate is never queued
+// (f64::MAX doubles as "not reached"; a node whose only candidates are f64::MAX stays unreached, as it stays unreported)
+pub open spec fn max_cand<T: Eq + PartialOrd + Send + Sync, A: Clone>(g: Graph<T, A>, weighted: bool, hist: Seq<(usize, f64)>, v: usize, k: int) -> bool {
+    exists|d: f64| #[trigger] hist.contains((v, d)) && feq(fadd(d, step_cost(g, weighted, v as int, k)), f64_max())
 }
-pub open spec fn succ_closed<T: Eq + PartialOrd + Send + Sync, A: Clone>(g: Graph<T, A>, done: Set<usize>) -> bool {
+pub proof fn lemma_max_cand_mono<T: Eq + PartialOrd + Send + Sync, A: Clone>(g: Graph<T, A>, weighted: bool, h0: Seq<(usize, f64)>, x: (usize, f64), v: usize, k: int)
+    requires max_cand(g, weighted, h0, v, k),
+    ensures max_cand(g, weighted, h0.push(x), v, k),
+{
+    let d = choose|d: f64| #[trigger] h0.contains((v, d)) && feq(fadd(d, step_cost(g, weighted, v as int, k)), f64_max());
+    let j = choose|j: int| 0 <= j < h0.len() && h0[j] == (v, d);
+    assert(h0.push(x)[j] == (v, d));
+    assert(h0.push(x).contains((v, d)));
+}
+pub open spec fn succ_closed_upto<T: Eq + PartialOrd + Send + Sync, A: Clone>(g: Graph<T, A>, weighted: bool, hist: Seq<(usize, f64)>, done: Set<usize>, h: vstd::multiset::Multiset<FringeNode>, cur: int, upto: int) -> bool {
+    forall|v: usize, k: int| #[trigger] entry_mark(v, k) && done.contains(v) && v < g.n() && 0 <= k < g.successors_vec@[v as int]@.len() && (v != cur || k < upto)
+        ==> done.contains(g.successors_vec@[v as int]@[k].node_index) || in_heap(h, g.successors_vec@[v as int]@[k].node_index) || max_cand(g, weighted, hist, v, k)
+}
+pub open spec fn succ_closed<T: Eq + PartialOrd + Send + Sync, A: Clone>(g: Graph<T, A>, weighted: bool, hist: Seq<(usize, f64)>, done: Set<usize>) -> bool {
     forall|v: usize, k: int| #[trigger] entry_mark(v, k) && done.contains(v) && v < g.n() && 0 <= k < g.successors_vec@[v as int]@.len()
-        ==> done.contains(g.successors_vec@[v as int]@[k].node_index)
+        ==> done.contains(g.successors_vec@[v as int]@[k].node_index) || max_cand(g, weighted, hist, v, k)
+}
+// the weighted visiting order: hist lists the assignments in visiting order; the order contains the source and is closed under the traversal rows
+// except for entries whose candidate is exactly f64::MAX
+pub open spec fn order_covers_reachable_w<T: Eq + PartialOrd + Send + Sync, A: Clone>(g: Graph<T, A>, source: usize, S: Seq<usize>, hist: Seq<(usize, f64)>) -> bool {
+    &&& S.contains(source)
+    &&& hist.len() == S.len() && forall|j: int| 0 <= j < hist.len() ==> (#[trigger] hist[j]).0 == S[j]
+    &&& forall|v: usize, k: int| #[trigger] entry_mark(v, k) && S.contains(v) && v < g.n() && 0 <= k < g.successors_vec@[v as int]@.len()
+            ==> S.contains(g.successors_vec@[v as int]@[k].node_index) || max_cand(g, true, hist, v, k)
+}
+// a duplicate-free list of positions below n has at most n entries
+pub proof fn lemma_distinct_bounded_len(s: Seq<usize>, n: nat)
+    requires s.no_duplicates(), forall|k: int| 0 <= k < s.len() ==> #[trigger] s[k] < n,
+    ensures s.len() <= n,
+{
+    s.unique_seq_to_set();
+    assert forall|w: usize| s.to_set().contains(w) implies w < n by {
+        let k = choose|k: int| 0 <= k < s.len() && s[k] == w;
+    }
+    lemma_bounded_usize_set_len(s.to_set(), n);
+}
+// a set of positions below n has at most n members
+pub proof fn lemma_bounded_usize_set_len(s: Set<usize>, n: nat)
+    requires forall|w: usize| s.contains(w) ==> w < n,
+    ensures s.len() <= n,
+    decreases n
+{
+    if n == 0 {
+        assert(s =~= Set::<usize>::empty());
+    } else {
+        let last = (n - 1) as usize;
+        let s2 = s.remove(last);
+        assert forall|w: usize| s2.contains(w) implies w < (n - 1) as nat by { assert(s.contains(w)); }
+        lemma_bounded_usize_set_len(s2, (n - 1) as nat);
+        if !s.contains(last) { assert(s2 =~= s); }
+    }
 }
 // what a single-source kernel reports: `done` is the set of nodes reachable from the source (it contains the source, is
-// closed under the traversal rows, and each of its nodes was assigned the length of a walk from the source: chain_ok);
+// closed under the traversal rows - except for entries whose candidate length is exactly f64::MAX - and each of its nodes was assigned the length of a walk from the source: chain_ok);
 // `out` lists nodes of `done` with their assigned lengths, and every node of `done` is listed unless its length is f64::MAX
 pub open spec fn reach_rel<T: Eq + PartialOrd + Send + Sync, A: Clone>(g: Graph<T, A>, weighted: bool, source: usize, hist: Seq<(usize, f64)>, done: Set<usize>, out: Seq<(usize, f64)>) -> bool {
     &&& chain_ok(g, weighted, source, hist)
     &&& forall|j: int| 0 <= j < out.len() ==> hist.contains(#[trigger] out[j]) && done.contains(out[j].0)
     &&& done.contains(source)
-    &&& succ_closed(g, done)
+    &&& succ_closed(g, weighted, hist, done)
     &&& forall|w: usize| #[trigger] done.contains(w) ==> w < g.n() && exists|d: f64| #[trigger] hist.contains((w, d)) && (feq(d, f64_max()) || out.contains((w, d)))
 }
 pub proof fn lemma_in_heap_remove(h: vstd::multiset::Multiset<FringeNode>, it: FringeNode, w: usize)
@@ -604,8 +705,6 @@ pub fn vcollect_reached(D: Vec<f64>) -> (r: Vec<(usize, f64)>)
 { D.into_iter().enumerate().filter(|(_, d)| *d != f64::MAX).collect() }
 
 //@ extract fn src/algorithms/centrality/closeness.rs single_source_shortest_path_length_weighted props=C03,C06,C20
-//@ head
-#[verifier::exec_allows_no_decreases_clause]
 //@ rewrite
 -> Vec<(usize, f64)>
 //@ with
@@ -641,7 +740,7 @@ let dist = core::ops::Neg::neg(fringe_item.distance);
                     assert(heap_view(&fringe).count(it) <= heap_view(&fringe).len());
                 }
             }
-            assert(succ_closed(*graph, done));
+            assert(succ_closed(*graph, true, hist, done));
             assert forall|j: int| 0 <= j < out@.len() implies hist.contains(#[trigger] out@[j]) && done.contains(out@[j].0) by {
                 assert(reported(D0, out@[j].0 as int));
             }
@@ -687,6 +786,8 @@ for adj in row_it: graph.get_successor_nodes_by_index(&v)
         assert(heap_view(&fringe).count(it0) > 0);
         assert(in_heap(heap_view(&fringe), source));
         assert(fneg(fneg(0.0f64)) == 0.0f64);
+        axiom_f64_zero_not_max();
+        assert(fneg(it0.distance) == 0.0f64);
     }
 //@ loop 1
         invariant
@@ -708,10 +809,17 @@ for adj in row_it: graph.get_successor_nodes_by_index(&v)
             forall|w: int| 0 <= w < graph.n() && !feq(#[trigger] seen@[w], f64_max()) ==> done.contains(w as usize) || in_heap(heap_view(&fringe), w as usize),
             forall|w: int| 0 <= w < graph.n() && !feq(#[trigger] D@[w], f64_max()) ==> done.contains(w as usize),
             forall|w: usize| #[trigger] done.contains(w) ==> w < graph.n() && exists|d: f64| #[trigger] hist.contains((w, d)) && (feq(d, f64_max()) || D@[w as int] == d),
-            succ_closed_upto(*graph, done, heap_view(&fringe), -1, 0),
+            succ_closed_upto(*graph, true, hist, done, heap_view(&fringe), -1, 0),
             done.contains(source) || in_heap(heap_view(&fringe), source),
+            // [C20.closeness_kernel.settled_once] a settled node carries a distance other than f64::MAX (no heap item carries f64::MAX),
+            // so the `continue` guard skips it for good
+            forall|w: usize| #[trigger] done.contains(w) ==> !feq(D@[w as int], f64_max()),
+            forall|it: FringeNode| #[trigger] heap_view(&fringe).count(it) > 0 ==> !feq(fneg(it.distance), f64_max()),
+            done.len() <= graph.n(),
         ensures
             heap_view(&fringe).len() == 0,
+        // [C20.closeness_kernel.terminates] a step settles a node (each at most once, there are n) or only takes an item off the heap
+        decreases graph.n() - done.len(), heap_view(&fringe).len(),
 //@ before let dist = -fringe_item.distance;
         let ghost heap0 = hv;
         proof {
@@ -730,8 +838,13 @@ for adj in row_it: graph.get_successor_nodes_by_index(&v)
         proof {
             let ghost h0 = hist;
             let ghost done0 = done;
+            assert(!done0.contains(v));
             hist = hist.push((v, dist));
             done = done.insert(v);
+            assert forall|x: usize, k: int| #[trigger] max_cand(*graph, true, h0, x, k) implies max_cand(*graph, true, hist, x, k) by {
+                lemma_max_cand_mono(*graph, true, h0, (v, dist), x, k);
+            }
+            assert(succ_closed_upto(*graph, true, hist, done, heap_view(&fringe), v as int, 0));
             lemma_chain_push(*graph, true, source, h0, v, dist);
             assert forall|it: FringeNode| #[trigger] heap_view(&fringe).count(it) > 0 implies citem_ok(*graph, source, hist, it) by {
                 lemma_citem_mono(*graph, source, h0, (v, dist), it);
@@ -753,6 +866,7 @@ for adj in row_it: graph.get_successor_nodes_by_index(&v)
                     assert(hist.contains((v, dist)));
                 }
             }
+            lemma_bounded_usize_set_len(done, graph.n());
         }
         let ghost vpos: int = hist.len() - 1;
 //@ loop 2
@@ -774,7 +888,10 @@ for adj in row_it: graph.get_successor_nodes_by_index(&v)
                 forall|w: usize| #[trigger] done.contains(w) ==> w < graph.n() && exists|d: f64| #[trigger] hist.contains((w, d)) && (feq(d, f64_max()) || D@[w as int] == d),
                 forall|it: FringeNode| #[trigger] heap_view(&fringe).count(it) > 0 ==> citem_ok(*graph, source, hist, it),
                 forall|w: int| 0 <= w < graph.n() && !feq(#[trigger] seen@[w], f64_max()) ==> done.contains(w as usize) || in_heap(heap_view(&fringe), w as usize),
-                succ_closed_upto(*graph, done, heap_view(&fringe), v as int, row_it.index@ as int),
+                succ_closed_upto(*graph, true, hist, done, heap_view(&fringe), v as int, row_it.index@ as int),
+                forall|w: usize| #[trigger] done.contains(w) ==> !feq(D@[w as int], f64_max()),
+                forall|it: FringeNode| #[trigger] heap_view(&fringe).count(it) > 0 ==> !feq(fneg(it.distance), f64_max()),
+                done.len() <= graph.n(),
                 done.contains(source) || in_heap(heap_view(&fringe), source),
 //@ before let vw_dist = dist + cost;
             let ghost fringe0 = heap_view(&fringe);
@@ -795,7 +912,20 @@ for adj in row_it: graph.get_successor_nodes_by_index(&v)
                     }
                     lemma_in_heap_insert(fringe0, itx, w);
                     assert(in_heap(heap_view(&fringe), w));
+                    assert(fneg(itx.distance) == vw_dist);
+                    assert forall|it: FringeNode| #[trigger] heap_view(&fringe).count(it) > 0 implies !feq(fneg(it.distance), f64_max()) by {
+                        if it != itx { assert(fringe0.count(it) > 0); }
+                    }
                 }
+//@ bodyend 2
+            proof {
+                // the entry just relaxed leads to a settled node, a queued node, or its candidate is exactly f64::MAX
+                assert(entry_mark(v, row_it.index@ as int));
+                if feq(vw_dist, f64_max()) {
+                    assert(hist.contains((v, dist)));
+                    assert(max_cand(*graph, true, hist, v, row_it.index@ as int));
+                }
+            }
 //@ end
 
 // ---- the betweenness driver: kernels -> accumulation -> rescale with the graph's own parameters ----
